@@ -68,6 +68,17 @@ pub struct Behavior {
     /// instead of exiting, the helper sends itself this signal once its script is done
     #[serde(default, skip_serializing_if = "Option::is_none")]
     pub kill_self: Option<i32>,
+    /// on exit the helper leaves a silent background process behind that keeps the inherited
+    /// stdout/stderr open for this long
+    #[serde(default, skip_serializing_if = "is_zero")]
+    pub linger_ms: u64,
+    /// (path relative to the repository, mode): permission changes the helper makes before it exits
+    #[serde(default, skip_serializing_if = "Vec::is_empty")]
+    pub chmod: Vec<(String, u32)>,
+}
+
+fn is_zero(x: &u64) -> bool {
+    *x == 0
 }
 
 pub fn hex(b: &[u8]) -> String {
@@ -178,10 +189,12 @@ static CASE_COUNTER: AtomicU64 = AtomicU64::new(0);
 
 /// A loopback port nobody is listening on right now.
 pub fn free_port() -> u16 {
-    let base = 20000 + (std::process::id() % 350) * 100;
+    // 20000-29999: below the kernel's ephemeral range (32768-60999), so that no outgoing
+    // connection of anybody can sit on a port handed out here
+    let base = 20000 + (std::process::id() % 100) * 100;
     for _ in 0..20000 {
         let k = PORT_COUNTER.fetch_add(1, Ordering::SeqCst);
-        let port = 20000 + ((base - 20000 + k) % 40000);
+        let port = 20000 + ((base - 20000 + k) % 10000);
         let port = port as u16;
         if std::net::TcpListener::bind(("127.0.0.1", port)).is_ok() {
             return port;
@@ -201,6 +214,8 @@ pub struct Env {
     pgids: Vec<i32>,
     pub extra_env: Vec<(String, String)>,
     pub default_timeout: Duration,
+    /// soft limit on open files for every process started through this Env (None: inherited)
+    pub nofile: Option<u64>,
 }
 
 impl Env {
@@ -225,6 +240,7 @@ impl Env {
             pgids: vec![],
             extra_env: vec![],
             default_timeout: Duration::from_secs(120),
+            nofile: None,
         }
     }
 
@@ -322,6 +338,13 @@ impl Env {
             if let Some(s) = b.kill_self {
                 m.insert("kill_self".into(), json!(s));
             }
+            if b.linger_ms > 0 {
+                m.insert("linger_ms".into(), json!(b.linger_ms));
+            }
+            if !b.chmod.is_empty() {
+                let v: Vec<Value> = b.chmod.iter().map(|(p, m)| json!([self.path(p).display().to_string(), m])).collect();
+                m.insert("chmod".into(), Value::Array(v));
+            }
             entries.insert(key, Value::Object(m));
         }
         let tmp = self.case_dir.join(".plan.tmp");
@@ -358,6 +381,19 @@ impl Env {
             .env("MRV_TRACE", &self.trace);
         for (k, v) in &self.extra_env {
             c.env(k, v);
+        }
+        if let Some(n) = self.nofile {
+            use std::os::unix::process::CommandExt;
+            unsafe {
+                c.pre_exec(move || {
+                    let mut lim = libc::rlimit { rlim_cur: 0, rlim_max: 0 };
+                    if libc::getrlimit(libc::RLIMIT_NOFILE, &mut lim) == 0 {
+                        lim.rlim_cur = (n as libc::rlim_t).min(lim.rlim_max);
+                        libc::setrlimit(libc::RLIMIT_NOFILE, &lim);
+                    }
+                    Ok(())
+                });
+            }
         }
         c
     }
